@@ -1,4 +1,5 @@
 import BU.Properties.C15
+import BU.Properties.C15_Gen
 #print axioms C15.header_roundtrip
 #print axioms C15.header_fields
 #print axioms C15.header_rejects
@@ -6,3 +7,4 @@ import BU.Properties.C15
 #print axioms C15.target_eq
 #print axioms C15.scanner_agrees
 #print axioms C15.block_parse
+#print axioms C15Gen.gen_tx_length
